@@ -8,7 +8,7 @@ RULE = ("exhaustive histories up to length 4 (quick) / 5 (thorough) over a 14-sy
         "(reset default/custom, selector read, LOD read, styling ok / bad-adj / bad-incr, start-path ok / bad, draw, close-move, "
         "arc, end-path, hi-res toggle), each instantiated with concrete random arguments, Bytes observed after every call; every history "
         "also run with an explicit Reset(default) in front (zero-value clause); plus long random histories. "
-        "Non-trivial: at least one Bytes observation succeeded and one call was made; distinct by script text.")
+        "a Reset in the middle of a path with a pending run followed by a complete program whose bytes are decoded again (ED); Non-trivial: at least one Bytes observation succeeded and one call was made; distinct by script text.")
 ASSUMPTIONS = ["error *kind* after a call that commits two violations at once is not fixed by the property: only presence and stickiness are compared"]
 
 DEFRESET = ["R", "c2000000", "c2000000", "42000000", "42000000", "-"]
@@ -57,7 +57,7 @@ def instantiate(rng, word):
 
 
 def generate(rng, tier):
-    g = {"exhaustive": [], "exhaustive-after-default-reset": [], "random-long": []}
+    g = {"exhaustive": [], "exhaustive-after-default-reset": [], "random-long": [], "reset-mid-path-decoded": []}
     depth = 4 if tier == "quick" else 5
     for n in range(0, depth + 1):
         for w in itertools.product(ALPHA, repeat=n):
@@ -72,6 +72,24 @@ def generate(rng, tier):
             r = rng.below(10)
             w.append(rng.choice(ALPHA) if r < 2 else rng.choice(["sty", "sp", "draw", "draw", "draw", "cmove", "arc", "end", "rsel", "rlod"]))
         g["random-long"].append("ENC " + " ".join(instantiate(rng, w)))
+    # "history since the last Reset": a Reset in the middle of a path with a pending (unflushed) run, then a
+    # complete program whose bytes are decoded again (ED: observable = decoded calls, not bytes)
+    for _ in range(400 if tier == "quick" else 6000):
+        t = ["SP", str(rng.below(7)), G.fl(rng), G.fl(rng)]
+        v = rng.choice(list("LlTtQqSsCcHhVvAa"))
+        for _ in range(rng.range(1, 6)):
+            t += G.draw_op(rng, v)
+        t += sym(rng, rng.choice(["reset", "resetc"]))
+        if rng.below(3) == 0:
+            t += sym(rng, "hires")
+        for _ in range(rng.below(3)):
+            t += sym(rng, "sty")
+        t += ["SP", str(rng.below(7)), G.fl(rng), G.fl(rng)]
+        v2 = v if rng.below(2) else rng.choice(list("LlTtQqSsCcHhVvAa"))
+        for _ in range(rng.range(1, 6)):
+            t += G.draw_op(rng, v2)
+        t += ["Z"]
+        g["reset-mid-path-decoded"].append("ED " + " ".join(t))
     return g
 
 
